@@ -150,6 +150,9 @@ fn run_behaviour<T: Sc>(idx: usize, h: &HiLine, par: bool, rep: &mut Report) {
                 prob = prob.into_seq();
                 let after = observe(prob.as_ref());
                 rep.check("C11", obs_bits_eq(&before, &after) && bits_eq(&pb, &prob.params()), 0.0, || det("into_sequential changed the state"));
+                prob = prob.into_par();
+                let again = observe(prob.as_ref());
+                rep.check("C11", obs_bits_eq(&before, &again) && bits_eq(&pb, &prob.params()), 0.0, || det("into_parallel changed the state"));
             }
             other => panic!("unknown op {other}"),
         }
